@@ -43,6 +43,10 @@ CLAIMED = {
    text='Coq theorems: Galerkin descent for every Hermitian operator, frame and micro solution (exact excess identity, hence descent with a positive semidefinite form); closed form of the right environments built by sle.py for every order/dims/ranks (conjugation on the operator row index). sle.als and sle.mals (both micro-solvers, thresholds, max ranks) are modelled end to end (stacks, micro matrices and right-hand sides with their index permutations, QR/RQ/SVD updates, loop bounds) and tied to /repo by oracle-tape differential execution on non-symmetric integer operators; side check of descent, monotonicity, fixed point, maximal-rank exactness, dims and ranks against numpy.linalg.solve.',
    note='PARTIAL: left-stack closed form, the assembly micro_op = P^H A P, monotonicity over sweeps and exactness at maximal ranks are covered by model+correspondence+side check, not by theorems. Conditional on solvable micro systems (guesses within maximal TT ranks). Known findings F16/F16b (truncated MALS not monotone) are reported as KNOWN-FINDING.',
    technique='Coq proof (Galerkin orthogonality; environment induction) + oracle-tape correspondence of the full solver', design='6 C07'),
+ 'C08': dict(
+   text='Coq theorems: Ritz consistency (for every order/dims/ranks, real and complex, standard and generalised problems: if the micro eigen-solver answers an eigenpair of the micro pencil at the last micro step, the returned eigenvalue is the Rayleigh quotient x^H A x / x^H G x of the returned tensor), via the closed form of the right environments; best-so-far bookkeeping is monotone. evp.als (eig/eigh, number_ev 1-2, deflation tensors with shift, generalised problems) is modelled end to end and tied to /repo by oracle-tape differential execution; side check against scipy.linalg.eigh: Rayleigh consistency, unit norm, <= lambda_max, fixed point (complex Hermitian), maximal-rank exactness, deflation = shift, monotonicity, inverse power iteration.',
+   note='PARTIAL: <= lambda_max, fixed point, exactness at maximal ranks, deflation = shift and convergence of power_method are side-check claims. Defects F06/F07 (conjugation in the left stacks; power_method Rayleigh quotient) were repaired.',
+   technique='Coq proof (environment closed form, quadratic-form identity) + oracle-tape correspondence of the full solver', design='6 C08'),
 }
 NOT_YET = {}
 ALL = ['C%02d' % i for i in range(1, 21)]
